@@ -511,6 +511,46 @@ func starCase(r *vh.Rand) *Case {
 	return c
 }
 
+// deepGlobCase: leaves at different depths under one prefix (so that some are
+// SHORTER than the delete path), deleted through paths with one or more globs
+// followed by further elements, or with a glob directly below a leaf; then
+// older updates to every leaf (a leaf the delete did not match must still
+// refuse them as stale).
+func deepGlobCase(r *vh.Rand) *Case {
+	c := &Case{Family: "deep-glob", Targets: []string{"t"}, Cfg: CfgJ{EventDriven: r.Chance(1, 2)}}
+	leaves := [][]string{{"if", "mtu"}, {"if", "e0", "in"}, {"if", "e0", "st", "in"}, {"if", "e1", "in"}, {"if", "e1", "out"},
+		{"x"}, {"sys", "up"}, {"if", "e0", "st", "q", "in"}}
+	dels := [][]string{{"if", "*", "*", "in"}, {"if", "*", "*"}, {"*", "*", "*"}, {"*", "*", "*", "*"}, {"if", "mtu", "*", "in"},
+		{"if", "*", "in"}, {"if", "*"}, {"*", "*"}, {"if", "e0", "*", "in"}, {"*", "mtu"}, {"if", "*", "*", "*", "in"},
+		{"*", "*", "in"}, {"x", "*"}, {"x", "*", "*"}, {"*", "e0", "*"}, {"if", "*", "st", "*"}, {"*"}, {"if", "mtu", "*"}}
+	upd := func(l []string, ts int64) Op {
+		k := r.Intn(len(l))
+		return Op{K: "upd", N: updN(ts, pfx("t", l[:k]...), pth(l[k:]...), ival(int64(1+r.Intn(2))))}
+	}
+	var stored [][]string
+	for i, k := 0, 3+r.Intn(4); i < k; i++ {
+		l := leaves[r.Intn(len(leaves))]
+		stored = append(stored, l)
+		c.Ops = append(c.Ops, upd(l, int64(2+r.Intn(2))))
+	}
+	for i, k := 0, 1+r.Intn(3); i < k; i++ {
+		q := dels[r.Intn(len(dels))]
+		ts := int64(1 + r.Intn(6))
+		kk := 0
+		if q[0] != "*" && r.Chance(1, 2) {
+			kk = 1
+		}
+		c.Ops = append(c.Ops, Op{K: "upd", N: delN(ts, pfx("t", q[:kk]...), pth(q[kk:]...))})
+		// out-of-order updates to what was stored: stale unless the leaf is really gone
+		for _, l := range stored {
+			if r.Chance(1, 2) {
+				c.Ops = append(c.Ops, upd(l, int64(1+r.Intn(2))))
+			}
+		}
+	}
+	return c
+}
+
 // extremeTsCase: negative (pre-epoch) timestamps and timestamps next to
 // MinInt64 / MaxInt64, in pairs on one leaf: every comparison of the
 // discipline between timestamps more than 2^63 apart.
@@ -603,8 +643,8 @@ func ruleText() string {
 		"non-trivial = some call was rejected as stale/future (also inside a multi notification) or some delete removed a leaf"
 }
 
-const c03Rule = "corpus cases (witnesses of the two defects and of the path-origin finding); every history of 1..D calls (D=3 quick, 4 thorough) over an alphabet of 11 calls on target t " +
-	"(scalar a/b with two values and two timestamps, scalar a/c, atomic container at a/b, multi update+delete, deletes a/b a/* *, Reset, Remove, Add), event-driven on; " +
+const c03Rule = "corpus cases (witnesses of the two defects and of the path-origin finding); every history of 1..D calls (D=3 quick, 4 thorough) over an alphabet of 13 calls on target t " +
+	"(scalar a/b with two values and two timestamps, scalar a/c, atomic container at a/b, multi update+delete (2+1 and 1+1), deletes a/b a/* *, Reset, Remove, Add), event-driven on; " +
 	"seeded random histories of 2..25 calls over two targets (as C02, plus Reset/Remove/Add/Sync/Connect/ConnectError/UpdateMetadata under a non-decreasing clock); " +
 	"aliasing histories (2..4 leaves written through one shared prefix object with 1..3 spare slots in every slice-typed field, in the elem, the deprecated element and the mixed encodings, singly or by one multi-update, then subtree / wildcard / single / double deletes, Reset, Remove+Add); two-writer histories; " +
 	"atomic<->scalar histories on one index path with equal and different first values, event-driven on and off; " +
@@ -648,12 +688,15 @@ func generate(e *emitter, o vh.Opts) {
 	for i := 0; i < nstar; i++ {
 		e.add(starCase(r.Fork()))
 	}
-	npair := 300
+	npair, ndeep := 300, 500
 	if o.Thorough() {
-		npair = 3000
+		npair, ndeep = 3000, 8000
 	}
 	for i := 0; i < npair; i++ {
 		e.add(pairCase(r.Fork()))
+	}
+	for i := 0; i < ndeep; i++ {
+		e.add(deepGlobCase(r.Fork()))
 	}
 	for i := 0; i < next; i++ {
 		e.add(extremeTsCase(r.Fork()))
@@ -677,6 +720,8 @@ func c03Alphabet() []Op {
 		{K: "upd", N: updN(1, pfx("t", "a"), pth("c"), ival(1))},
 		{K: "upd", N: at},
 		{K: "upd", N: multi},
+		// the dispatch boundary: exactly one update and one delete (of another, existing leaf)
+		{K: "upd", N: &NotiJ{TS: 3, Prefix: pfx("t", "a"), Upd: []UpdJ{{Path: pth("c"), Val: ival(2)}}, Del: []PathJ{*pth("b")}}},
 		{K: "upd", N: delN(2, pfx("t", "a"), pth("b"))},
 		{K: "upd", N: delN(3, pfx("t", "a"), pth("*"))},
 		{K: "upd", N: delN(9, pfx("t"), pth("*"))},
@@ -908,12 +953,15 @@ func generateC03(e *emitter, o vh.Opts) {
 	for i := 0; i < nsub; i++ {
 		e.add(subscribedCase(r.Fork()))
 	}
-	npair := 300
+	npair, ndeep := 300, 500
 	if o.Thorough() {
-		npair = 3000
+		npair, ndeep = 3000, 8000
 	}
 	for i := 0; i < npair; i++ {
 		e.add(pairCase(r.Fork()))
+	}
+	for i := 0; i < ndeep; i++ {
+		e.add(deepGlobCase(r.Fork()))
 	}
 	for i := 0; i < nval; i++ {
 		e.add(valueCase(r.Fork()))
